@@ -104,7 +104,9 @@ theorem loopNode_depth (loop : St → Res) (s : St) :
   simp only
   split
   · rfl
-  · split <;> rfl
+  · split
+    · unfold loopErrRes; split <;> rfl
+    · rfl
 
 /-- In particular a pending depth survives a sibling loop that itself breaks nothing. -/
 theorem pending_survives_sibling (loop : St → Res) (s : St)
@@ -121,7 +123,21 @@ theorem loopNode_starts_clean (loop : St → Res) (s : St) :
   simp only
   split
   · rfl
-  · split <;> rfl
+  · split
+    · rw [loopErrRes_w]
+    · rfl
+
+/-- A `break` / `continue` in the for-else branch of an inner loop reaches the parent loop as the returned
+    signal and is NOT left in `ctx.Err` (the repaired defect: the render used to end with the error
+    "break loop"). -/
+theorem else_signal_not_kept (loop : St → Res) (s : St) (e : Err) (hs : isSentinel e = true)
+    (h1 : (loop { s with c := { s.c with brkD := 0 } }).err = none)
+    (h2 : (loop { s with c := { s.c with brkD := 0 } }).st.c.err = some e) :
+    (loopNode loop s).err = some e ∧ (loopNode loop s).st.c.err = none := by
+  unfold loopNode
+  simp only [h1, h2]
+  unfold loopErrRes
+  simp [hs, fail]
 
 /-! ### The conditional forms are the instruction wrapped in an `if`
 
